@@ -67,6 +67,7 @@ def impl(inp):
     script, horizon, pmap, asp, psp, seed, tkind = inp
     RecPolicy = _policy_class()
     sim, mgr = make_manager(script)
+    sim.np_bools = bool(seed & 1)        # half of the cases: numpy booleans from the simulation
     n = script[1]
     for i in range(n):
         if script[2][i]:
